@@ -54,7 +54,11 @@ Definition reset_counters (t : tocinfo) : tocinfo :=
 
 
 Inductive pbreak := PNormal | PBlock | PItem | PForced.
-(* url.Parse(u).String(): the prototype keeps to URLs on which it is the identity *)
-Definition url_norm (u : str) : str := u.
+(* url.Parse(u).String() is an oracle: the world supplies its value for the urls of the document (computed by net/url
+   in the harness); urls it does not list are those on which it is the identity.  [with_url u k]: continue with the
+   normalised url, or report it and continue with the empty string, as the exporters do. *)
+Definition url_norm (s : st) (u : str) : option str := match assoc u (urls s) with Some r => r | None => Some u end.
+Definition with_url (u : str) (k : str -> st -> st) (s : st) : st :=
+  match url_norm s u with Some n => k n s | None => k [] (err "invalid url or path" s) end.
 Definition set_panic (m : string) (s : st) : st := match panicked s with Some _ => s | None => s <| panicked := Some (runes m) |> end.
 Definition spaces2 (n : nat) : str := List.concat (List.repeat (R "  ") n).
